@@ -64,8 +64,11 @@ func profile(name string) Profile {
 		w["reopen"], w["closereopen"], w["control"] = 0, 5, 0
 		p.Sweep = 40
 	case "C17":
-		w["recreate"], w["reopen"], w["closereopen"] = 12, 6, 4
-	case "C12", "C01":
+		w["recreate"], w["recreatebad"], w["variant"], w["reopen"], w["closereopen"], w["tick"] = 12, 6, 8, 4, 4, 8
+		p.CfgMode = "anyasync"
+	case "C12":
+		w["getabs"], w["tick"], w["control"], w["exist"] = 6, 6, 4, 8
+	case "C01":
 		w["getabs"] = 6
 	case "C06":
 		w["getabs"], w["ins"], w["upd"], w["many"], w["bulk"], w["failwrite"] = 4, 22, 22, 8, 4, 22
@@ -108,6 +111,15 @@ func genCfg(r *rand.Rand, p Profile) Cfg {
 		c.Lower = pct(r, 15)
 		if pct(r, 20) {
 			c.Ext = []string{".dat", ".obj.v1", ""}[r.Intn(3)]
+		}
+	case "anyasync":
+		c.Cache = pct(r, 40)
+		c.Compress = pct(r, 25)
+		c.Lower = pct(r, 15)
+		if pct(r, 40) {
+			c.Async = true
+			c.Thr = 1 + r.Intn(5)
+			c.To = 1 + r.Intn(4)
 		}
 	case "async":
 		c.Async = true
@@ -612,7 +624,8 @@ func (e *Exec) GenOp(r *rand.Rand, p Profile) []string {
 	case "delall":
 		return sweep("delall")
 	case "reopen":
-		if e.cfg.Async {
+		if e.cfg.Async || p.Name == "C12" {
+			// abandoning a handle is only defined for synchronous mode (C04)
 			return sweep("close", "reopen")
 		}
 		return sweep("reopen")
@@ -621,7 +634,7 @@ func (e *Exec) GenOp(r *rand.Rand, p Profile) []string {
 	case "aidx":
 		return []string{fmt.Sprintf("aidx %d", e.genField(r)%NF)}
 	case "control":
-		if e.cfg.Async {
+		if e.cfg.Async || p.Name == "C12" {
 			return []string{"flushall", "control"}
 		}
 		return []string{"control"}
@@ -637,7 +650,55 @@ func (e *Exec) GenOp(r *rand.Rand, p Profile) []string {
 	case "recreate":
 		// Create again: same schema, or a switch of cache / async settings
 		kv := fmt.Sprintf("cache=%d", r.Intn(2))
-		return sweep("create " + kv)
+		if p.Name == "C17" && pct(r, 60) {
+			if pct(r, 50) {
+				kv += fmt.Sprintf(" async=1 thr=%d to=%d", 1+r.Intn(4), 1+r.Intn(3))
+			} else {
+				kv += " async=0"
+			}
+		}
+		return sweep("create "+kv, "count", "all")
+	case "recreatebad":
+		// re-creation with another extension or other constraints must be refused
+		if pct(r, 40) {
+			return []string{"dirhash", "create ext=" + stok(".other"), "dirhash"}
+		}
+		i := r.Intn(NF)
+		fl := []byte(e.cfg.Cons[i])
+		if fl[0] == '1' {
+			fl[0] = '0'
+		} else {
+			fl[0] = '1'
+		}
+		if shape.Kinds[i] == 's' && pct(r, 50) {
+			fl = []byte(e.cfg.Cons[i])
+			fl[2] = '1' + '0' - fl[2]
+		}
+		return []string{"dirhash", fmt.Sprintf("create cons=%d:%s", i, string(fl)), "dirhash"}
+	case "variant":
+		// the same directory opened through a Go struct whose shape changed: every operation
+		// must be refused and every file must stay byte-identical
+		k := 2 + r.Intn(3)
+		out := []string{"close", "dirhash", fmt.Sprintf("vopen %d", k)}
+		nextSid++
+		u := e.pickLive(r)
+		if u == 0 {
+			u = 1
+		}
+		f := genRec(r, e.cfg)
+		g2 := genRec(r, e.cfg)
+		g2.U = u
+		battery := []string{"schema", "ins " + f.String(), "ins " + g2.String(), "many " + f.String() + " " + g2.String(),
+			fmt.Sprintf("get %d", u), fmt.Sprintf("getu %d", u), fmt.Sprintf("exist %d", u), "count", "all",
+			fmt.Sprintf("search %d %s", nextSid, e.genCmp(r)), fmt.Sprintf("aidx %d", r.Intn(NF)), "commit", "repair",
+			"create", fmt.Sprintf("del %d", u), "delall", "flushall", "flushallc", "control", "close"}
+		r.Shuffle(len(battery)-1, func(i, j int) { battery[i], battery[j] = battery[j], battery[i] })
+		out = append(out, battery[:6+r.Intn(len(battery)-6)]...)
+		back := "vopen 1"
+		if pct(r, 30) {
+			back = "vopen 5"
+		}
+		return append(out, "close", "dirhash", back, "count", "all", "dump", "fs")
 	case "fault":
 		switch r.Intn(7) {
 		case 0, 1:
